@@ -103,7 +103,7 @@ def queries(tier):
     # an edit of the caller is outside the cone of a zero-argument callee and of what that callee keeps
     E15 = {"style": "eval"}
     for v in "bc":
-        qs.append(q("outside.T15.caller-edit.%s" % v, "T15", [dict(E15, variants=A), dict(E15, variants={"tq.m1": v}, expect={"not_executed": ["mid", "leaf"], "executed": ["top"], "same_sig": [0, ["/t15/mid", "/t15/leaf"]]})]))
+        qs.append(q("outside.T15.caller-edit.%s" % v, "T15", [dict(E15, variants=A), dict(E15, variants={"tq.m1": v}, expect={"not_executed": ["leaf"], "executed": ["top"], "same_sig": [0, ["/t15/mid", "/t15/leaf"]]})]))
     # copy of the code in another accepted module: same values of RATE in both modules
     qs.append({"id": "same.T8.copy", "fn": "hist", "sel": {"template": "T8", "steps": [{"entry": ["tq.m1", "scaled"]}, {"entry": ["tq.m3", "scaled"], "leaves_from": 0, "expect": NONE}], "leaf_type": {}, "nargs": False, "store": "memory", "fixed": {}, "tie": [["tq.m1", "tq.m3", "RATE"]]}, "timeout": 300})
     # (s, s', s)
